@@ -7,12 +7,13 @@ PROP = dict(
     required_theorems=["Comdex.C08.totalLend_eq", "Comdex.C08.totalLend_eq_partial", "Comdex.C08.totalLend_handover_counterexample",
                        "Comdex.C08.totalBorrowed_eq", "Comdex.C08.totalStable_eq",
                        "Comdex.C08.borrow_respects_ltv", "Comdex.C08.draw_respects_ltv", "Comdex.C08.borrow_msg_cases",
-                       "Comdex.C08.ltv_exact", "Comdex.C08.interpool_borrow_respects_transit_ltv",
+                       "Comdex.C08.ltv_exact", "Comdex.C08.borrow_accepted_ltv_exact", "Comdex.C08.draw_accepted_ltv_exact",
+                       "Comdex.C08.ltv_exact_tight", "Comdex.C08.interpool_borrow_respects_transit_ltv", "Comdex.C08.interpool_borrow_ltv_exact",
                        "Comdex.C08.borrow_respects_ltv_pledged",
                        "Comdex.C08.borrow_requires_pool_funds", "Comdex.C08.draw_requires_pool_funds",
                        "Comdex.C08.withdraw_never_releases_pledged", "Comdex.C08.closeLend_never_releases_pledged"],
     harness_tests=["TestC08"],
-    monitors=["total_lend", "total_lend_orphaned", "total_borrowed", "total_stable", "ltv", "pool_funds", "pledged_safe"],
+    monitors=["total_lend", "total_lend_orphaned", "total_borrowed", "total_stable", "ltv", "ltv_exact", "pool_funds", "pledged_safe"],
     trusted_base=[KERNEL_TB, HARNESS_TB, DEC_TB,
                   "Model/Lend.lean is hand-written from x/lend/keeper/{keeper,funds,rates,iter}.go and x/liquidationsV2/keeper/liquidate.go:360-404; "
                   "tied by delivering generated messages to the real app (ValidateBasic + MsgServiceRouter handler on a cache context) and comparing "
